@@ -30,7 +30,8 @@ ASSUMPTIONS = ['the Proxy-Authorization header line itself is not judged '
                '(the property speaks about the CONNECT target and ordering)']
 
 REPLIES = ['ok', 'ok', 'ok', 'ok', 'status', 'status', 'other_2xx', 'garbage',
-           'unterminated_eof', 'stalled', 'oversize', 'empty', 'http10_ok']
+           'unterminated_eof', 'stalled', 'oversize', 'empty', 'http10_ok',
+           'info_then_200']
 
 
 def plan(tier):
@@ -224,6 +225,13 @@ def _proxy_reply(case):
     if kind == 'status':
         return b'HTTP/1.1 %d Nope\r\n' % case['status'] + extra + \
             b'Content-Length: 0\r\n\r\n', False
+    if kind == 'info_then_200':
+        # the first answer is a 1xx block: not a 200, whatever follows it
+        return b'HTTP/1.1 %d %s\r\n\r\n' % rng.choice(
+            [(100, b'Continue'), (102, b'Processing'),
+             (103, b'Early Hints')]) + \
+            b'HTTP/1.1 200 Connection established\r\n' + extra + b'\r\n', \
+            False
     if kind == 'other_2xx':
         return b'HTTP/1.1 %d Sort of\r\n' % rng.choice([201, 202, 204, 206,
                                                          226, 299]) + \
@@ -275,7 +283,7 @@ def build(case):
         kind = case['reply']
         then_server = good
         if kind in ('unterminated_eof', 'empty', 'garbage', 'status',
-                    'other_2xx', 'oversize'):
+                    'other_2xx', 'oversize', 'info_then_200'):
             psteps.append(S.eof(after=1000 if kind != 'status' else 2000000))
         elif kind == 'stalled':
             psteps.append({'op': 'silence'})
